@@ -23,7 +23,11 @@ ENUMS = [
 ASSUMPTIONS = h5.ASSUMPTIONS + [
     "crcmod's crc-ccitt-false equals the bitwise CRC-16 of Base/Crc16.v (tied exhaustively in family 17 / C04); "
     "here every packed CRC trailer is additionally recomputed bitwise by the oracle",
-    "copy.copy(pdu_conf) is shallow and nothing else aliases the caller's PduConfig (its fields are compared after construction)",
+    "copy.copy(pdu_conf) in the constructor is shallow (by design): the PDU's configuration and the caller's share the three "
+    "UnsignedByteField objects until one side gets another object assigned; the history model (Model/FileDataOps.v, fworld) "
+    "tracks which fields are still shared, and the caller's PduConfig is compared after construction and at the end of every history",
+    "the PDU aliases the caller's FileDataParams (by design): writes to params.offset / params.file_data show through without "
+    "a recalculated length until one of the PDU's setters runs (modelled; the oracle judges pack() against the current views)",
 ]
 TRUSTED = ["crcmod 1.7 (C extension) as CRC-16/CCITT-FALSE"]
 EXPLORED_ONLY = []
